@@ -8,6 +8,7 @@ import (
 	"runtime"
 	"runtime/debug"
 	"strconv"
+	"strings"
 	"sync"
 	"time"
 
@@ -23,6 +24,7 @@ func main() {
 	verif := flag.String("verif", "/verif", "verif dir (evidence, known findings)")
 	only := flag.String("only", "", "re-derive one obligation key only")
 	replay := flag.String("replay", "", "replay file written by a previous run")
+	dbg := flag.String("debug-invalid", "", "comma-separated function names")
 	flag.Parse()
 	if os.Getenv("GOMAXPROCS") == "" {
 		// many OS threads make the loader spend its time in the kernel on this VM; 4 is the measured optimum
@@ -45,6 +47,15 @@ func main() {
 			os.Exit(2)
 		}
 		*only = k
+	}
+	if *dbg != "" {
+		pr, err := load.Load(*repo, load.Linux)
+		if err != nil {
+			fmt.Println(err)
+			os.Exit(2)
+		}
+		rules.DebugInvalid(pr, strings.Split(*dbg, ",")...)
+		return
 	}
 	spec := rules.Get(*prop)
 	if spec == nil {
